@@ -23,6 +23,7 @@ import (
 	"errors"
 	"fmt"
 	"github.com/nuts-foundation/go-stoabs"
+	"github.com/nuts-foundation/nuts-node/crypto"
 	"github.com/nuts-foundation/nuts-node/vdr/resolver"
 
 	"github.com/lestrrat-go/jwx/v2/jwa"
@@ -54,6 +55,9 @@ func NewTransactionSignatureVerifier(resolver resolver.NutsKeyResolver) Verifier
 				return fmt.Errorf("unable to verify transaction signature, can't resolve key by TX ref (kid=%s, tx=%s): %w", transaction.SigningKeyID(), transaction.Ref().String(), err)
 			}
 			signingKey = pk
+		}
+		if err := crypto.CheckAlgorithmFitsKey(jwa.SignatureAlgorithm(transaction.SigningAlgorithm()), signingKey); err != nil {
+			return err
 		}
 		// TODO: jws.Verify parses the JWS again, which we already did when parsing the transaction. If we want to optimize
 		// this we need to implement a custom verifier.
